@@ -28,6 +28,20 @@ Theorem C10_run_indent : forall cfg r p q, f_at_end cfg = false ->
 Proof. exact fmt_run_indent. Qed.
 Print Assumptions C10_run_indent.
 
+(* at most one blank line in a row: the output never holds three line feeds in a row (and by the theorem
+   above no line consists of blanks only, except possibly the indentation after the last line feed) *)
+Theorem C10_run_blank_lines : forall cfg r, has3nl (fmt_run cfg r) = false.
+Proof. exact fmt_run_blank_lines. Qed.
+Print Assumptions C10_run_blank_lines.
+
+(* the run that ends the file is empty, or a single line feed, or ends in a byte that is neither blank
+   nor line feed, followed by at most one line feed: no blank lines and no blanks at the end *)
+Theorem C10_run_end_of_file : forall cfg r, f_at_end cfg = true ->
+  fmt_run cfg r = [] \/ fmt_run cfg r = [NL] \/
+  exists a c, is_sp_nl c = false /\ (fmt_run cfg r = a ++ [c] \/ fmt_run cfg r = a ++ [c; NL]).
+Proof. exact fmt_run_end. Qed.
+Print Assumptions C10_run_end_of_file.
+
 Example C10_nonvacuous_S17 :
   fmt_run (mk_fcfg false false 2 1) [NL; NL] = [NL; NL; SP; SP].
 Proof. vm_compute. reflexivity. Qed.
